@@ -6,6 +6,8 @@ CONSTANTS
   MaxAccts = 2
   AttemptUsers = {"alice", "bob"}
   Lens = {1, 2, 3, 4, 5, 6, 7, 8, 9, 10, 11, 12, 13, 14, 15, 16, 17, 18, 19, 21, 22, 23, 24, 25, 26, 27, 28, 29, 30, 31, 32, 33, 34, 35, 36, 37, 38, 39, 40}
+  NulLens = {1, 19, 20, 21, 32}
+  PadLens = {1, 2, 12, 20}
 INIT TInit
 NEXT TNext
 CONSTRAINT Judge HW
